@@ -177,6 +177,7 @@ def __calculate_equities_0(
     assert len(board_cards) == board_dealing_count
 
     equities = [0.0] * len(hole_cards)
+    statuses = []
 
     for hand_type in hand_types:
         hands = list(
@@ -186,10 +187,14 @@ def __calculate_equities_0(
             ),
         )
         max_hand = max_or_none(hands)
-        statuses = list(map(partial(eq, max_hand), hands))
-        increment = 1 / (len(hand_types) * sum(statuses))
 
-        for i, status in enumerate(statuses):
+        if max_hand is not None:
+            statuses.append(list(map(partial(eq, max_hand), hands)))
+
+    for sub_statuses in statuses:
+        increment = 1 / (len(statuses) * sum(sub_statuses))
+
+        for i, status in enumerate(sub_statuses):
             if status:
                 equities[i] += increment
 
